@@ -32,7 +32,7 @@ Relevant code: {', '.join(p['anchors']['files'])}
 Produce TWO independent changes, called {A} and {B} (each applies to the clean worktree on its own), to the hugr-py source (under hugr-py/src/hugr) such that each:
 1. breaks the property above (some input now violates its statement), while the code still imports and the existing test suite result is unchanged: `cd {wt} && /venv/bin/python -m pytest -q -p no:cacheprovider --timeout=900 2>&1 | tail -1` must still print exactly the same counts as on the clean tree (`29 failed, 180 passed, 1 skipped, 10 errors`; those 39 non-passing tests need an absent Rust binary and are the baseline);
 2. is realistic: the kind of slip a maintainer could make in a refactoring or an optimisation (an off-by-one, a wrong default, a lost field, an early return, a swapped argument, a cache that is not invalidated, a condition that is slightly too weak), not sabotage, and at most ~15 changed lines;
-3. needs something SPECIFIC to manifest: a particular multi-step sequence of operations, an unusual input shape, a boundary value, or two cooperating sites that each look fine alone — ordinary use (the common path every caller exercises) must keep working. Prefer {A} and {B} to break different parts of the statement through different code.{PRIOR}
+3. needs something SPECIFIC to manifest: a particular multi-step sequence of operations, an unusual input shape, a boundary value, or two cooperating sites that each look fine alone — ordinary use (the common path every caller exercises) must keep working. Prefer {A} and {B} to break different parts of the statement through different code, and prefer triggers that a generator of typical inputs is unlikely to hit by chance (a rarely combined pair of features, a second call on the same object, an ordering of calls, a boundary size).{PRIOR}
 
 For each change x in {{{A}, {B}}} write:
 - {out}/patch_x.diff — `git diff` of the change against the clean worktree (applies with `git apply`);
